@@ -290,6 +290,10 @@ pub fn write_step(rng: &mut Rng, ki: Option<usize>, vi: usize, len: u64, cfg: &W
                 if rng.chance(1, 2) {
                     o["time"] = json!((1_600_000_000_000u64 + rng.below(1 << 36)).to_string());
                 }
+                if rng.chance(1, 4) {
+                    // a correctly declared integrity, single or multi-hash (the extra hash is of a weaker algorithm)
+                    o["sri"] = if rng.chance(1, 2) || algo == "xxh3" { json!({"val":vi,"algo":algo}) } else { json!({"multi":[{"val":vi,"algo":algo},{"val":vi,"algo":"xxh3"}]}) };
+                }
             }
             st["opts"] = o;
         }
